@@ -666,6 +666,10 @@ impl History {
     pub fn take(&self) -> Vec<Ev> {
         self.evs.lock().unwrap().clone()
     }
+    /// origin of `Ev::t_us` (same clock as `PktEv::at`)
+    pub fn start(&self) -> Instant {
+        self.start
+    }
 }
 
 /// Small enum of error kinds for the transcript (no text, no addresses).
